@@ -71,10 +71,13 @@ FormatFor(ext, pflag, oflag) ==
   IN [in |-> in, out |-> out]
 
 \* ---- results an output format cannot represent must fail, never be dropped or replaced (statement of C19)
-Shapes == {"string", "flatmap", "nestedmap", "seqscalars", "seqmaps", "mapwithseq", "xmlattrseq"}
+Shapes == {"string", "flatmap", "nestedmap", "seqscalars", "seqmaps", "mapwithseq", "xmlattrseq", "seqmapskey", "specials"}
+\* seqmapskey: a sequence of maps whose first map has a key that is a sequence;  specials: [.nan, .inf, text]
 OutFormats == {"yaml", "json", "props", "csv", "tsv", "xml", "toml", "lua", "shell", "base64", "uri"}
 MustFail(fmt, shape) ==
-  \/ fmt \in {"csv", "tsv"} /\ shape \in {"nestedmap", "mapwithseq", "xmlattrseq"}                      \* nested data has no row form
+  \/ fmt \in {"csv", "tsv"} /\ shape \in {"nestedmap", "mapwithseq", "xmlattrseq", "seqmapskey"}        \* nested data has no row form, a sequence is no column name
+  \/ fmt = "json" /\ shape = "specials"                                                                \* JSON has no NaN / Infinity
+  \/ fmt = "xml" /\ shape \in {"seqmapskey", "specials"}
   \/ fmt = "xml" /\ shape \in {"seqscalars", "seqmaps", "xmlattrseq"}                                    \* no top-level sequence; an attribute must be a scalar
   \/ fmt = "toml" /\ shape # "string"                                                                   \* the TOML encoder only prints scalars
   \/ fmt \in {"base64", "uri"} /\ shape # "string"
